@@ -1886,7 +1886,10 @@ func (c *Client) runHandleInvocation(msg *wamp.Invocation) {
 							wamp.OptMessage: ErrPPTNotSupportedByPeer.Error(),
 						},
 					}
-					c.sess.Send() <- &abortMsg
+					select {
+					case c.sess.Send() <- &abortMsg:
+					case <-c.ctx.Done():
+					}
 					c.sess.EndRecv(nil) // stop the client; Close() closes the peer
 					return
 				}
